@@ -8,6 +8,10 @@
   argument, else the declared default evaluated in the empty context, else None.
 -/
 import NemoVerif.Lemmas.Bind
+import NemoVerif.Lemmas.BindHeap
+import NemoVerif.Lemmas.BindHeapEntries
+import NemoVerif.Lemmas.BindSurplus
+import NemoVerif.Lemmas.BindProgress
 namespace NemoVerif.C08
 open NemoVerif NemoVerif.Bind
 
@@ -198,5 +202,408 @@ theorem inplace_private_partial (s : Heap.HSt) (u w : Nat) (x y : String) (v : V
 /-- non-vacuity: caller and callee variables with distinct objects -/
 example : Heap.addrOf 0 "l" [((0, "l"), 0), ((1, "l"), 1)] ≠ Heap.addrOf 1 "l" [((0, "l"), 0), ((1, "l"), 1)] := by
   simp [Heap.addrOf]
+
+/-! ## Reference semantics: defaults are fresh objects, locals are private under in-place mutation
+
+  `hexec` (Models/BindHeap.lean) is `exec` over a heap: contexts, `arguments` and events hold addresses,
+  `($x.append(..))` mutates the cell `$x` refers to, `create_flow_instance` / `_start_flow` (the very
+  functions of the value model) move addresses.  A declared default is evaluated per instance
+  (`allocDefaults`). -/
+
+/-- **Defaults are fresh, one call** (every heap, i.e. every earlier history; every signature; every
+    well-formed call): an OMITTED parameter — not among the `k` positionals, not named — is bound to its
+    declared default: the callee's entry context read in the heap of that moment shows
+    `params[i].dfltVal`, and a declared default is a NEW object (an address beyond every cell that existed
+    before the call: nothing any earlier instance did, or will do through its own variables, can reach it). -/
+theorem defaults_fresh_call (h : Heap) (params rets : List Param) (ua : Ctx) (k : Nat) (form : CallForm)
+    (flow : String) (n caller : Nat) (hwf : WellFormedCall params rets ua k) :
+    ∃ f0 f, createFlowInstance flow (allocDefaults h params).2 (allocDefaults (allocDefaults h params).1 rets).2
+          (startArgs ua form flow n caller) = .ok f0 ∧
+      startFlow false (startArgs ua form flow n caller) f0 = .ok f ∧
+      ∀ i (hi : i < params.length), k ≤ i → lookup (argKey params[i].name) ua = none →
+        lookup (.name params[i].name) (derefCtx (allocDefaults (allocDefaults h params).1 rets).1 f.context)
+          = some params[i].dfltVal ∧
+        (params[i].dflt.isSome → ∃ a, h.length ≤ a ∧ lookup (.name params[i].name) f.context = some (addr a)) :=
+  Bind.defaults_fresh_call h params rets ua k form flow n caller hwf
+
+/-- non-vacuity: `flow collect $item $bucket=[]` called as `collect("a")` (one positional, `$bucket` omitted) -/
+example : WellFormedCall [⟨"item", none⟩, ⟨"bucket", some (.lit (.list []))⟩] [] [(.pos 0, addr 0)] 1 ∧
+    lookup (argKey "bucket") [(.pos 0, addr 0)] = none := by
+  refine ⟨⟨by decide, by simp [lookup], by simp, by simp, ?_, ?_⟩, by simp [lookup, argKey, reservedNames]⟩
+  · intro i hi; have : i = 0 := by omega
+    subst this; simp [lookup]
+  · intro i hi
+    have : (Key.pos 0 = Key.pos i) = False := by
+      simp only [Key.pos.injEq, eq_iff_iff, iff_false]; omega
+    simp [lookup, this]
+
+/-- **Return members are fresh, one call** (any heap, any signature, any well-formed call; member names
+    distinct and none named like a parameter): every return member starts in the callee's entry context as its
+    declared default, and a declared default is a NEW object — whatever earlier instances did to theirs. -/
+theorem return_members_fresh_call (h : Heap) (params rets : List Param) (ua : Ctx) (k : Nat) (form : CallForm)
+    (flow : String) (n caller : Nat) (hwf : WellFormedCall params rets ua k) (hrn : (pnames rets).Nodup) :
+    ∃ f0 f, createFlowInstance flow (allocDefaults h params).2 (allocDefaults (allocDefaults h params).1 rets).2
+          (startArgs ua form flow n caller) = .ok f0 ∧
+      startFlow false (startArgs ua form flow n caller) f0 = .ok f ∧
+      ∀ j (hj : j < rets.length),
+        lookup (.name rets[j].name) (derefCtx (allocDefaults (allocDefaults h params).1 rets).1 f.context) = some rets[j].dfltVal ∧
+        (rets[j].dflt.isSome → ∃ a, h.length ≤ a ∧ lookup (.name rets[j].name) f.context = some (addr a)) :=
+  return_members_fresh_call_core h params rets ua k form flow n caller hwf hrn
+
+/-- non-vacuity: `flow fa $a -> $r=[]` called as `fa(x)` -/
+example : WellFormedCall [⟨"a", none⟩] [⟨"r", some (.lit (.list []))⟩] [(.pos 0, addr 0)] 1 ∧
+    (pnames [⟨"r", some (.lit (.list []))⟩]).Nodup := by
+  refine ⟨⟨by decide, by simp [lookup], by simp [pnames], by simp, ?_, ?_⟩, by simp [pnames]⟩
+  · intro i hi; have : i = 0 := by omega
+    subst this; simp [lookup]
+  · intro i hi
+    have : (Key.pos 0 = Key.pos i) = False := by
+      simp only [Key.pos.injEq, eq_iff_iff, iff_false]; omega
+    simp [lookup, this]
+
+/-- **Defaults are fresh, every call of every history** (induction over whole executions of `hexec`, from
+    ANY state — any heap, any instances, whatever was mutated before): every callee entry recorded during
+    the execution obeys the statement's rule `EntryOK`: if the call is well-formed for the callee's
+    signature, each omitted parameter shows its declared default in the entry context. -/
+theorem defaults_fresh (flows : List (String × HFlowDef)) (fuel : Nat) (s : HSt) (u : Nat) (body : List HStmt) :
+    ∀ e ∈ (hexec flows fuel s u body).1.entries, e ∈ s.entries ∨ EntryOK flows e :=
+  hexec_entriesOK flows fuel s u body
+
+/-- **Return members are fresh, every call of every history** (induction over whole executions of `hexec`, from any
+    state): every callee entry recorded obeys `EntryRetOK` — for a well-formed call of a flow whose return members
+    have distinct names, each return member shows its declared default in the entry context. -/
+theorem return_members_fresh (flows : List (String × HFlowDef)) (fuel : Nat) (s : HSt) (u : Nat) (body : List HStmt) :
+    ∀ e ∈ (hexec flows fuel s u body).1.entries, e ∈ s.entries ∨ EntryRetOK flows e :=
+  hexec_entriesRetOK flows fuel s u body
+
+/-- … in particular for every call of a whole program -/
+theorem defaults_fresh_program (flows : List (String × HFlowDef)) (fuel : Nat) (main : List HStmt) :
+    ∀ e ∈ (runMainH flows fuel main).1.entries, EntryOK flows e := by
+  intro e he
+  simp only [runMainH] at he
+  split at he
+  · simp at he
+  · rcases hexec_entriesOK flows fuel _ 0 main e he with h | h
+    · simp at h
+    · exact h
+
+/-- **Locals are private under in-place mutation** (frame theorem of `hexec`, induction over whole
+    executions).  `A` is any region of addresses closed for the running instance `u` (`Pre`: what `u`'s
+    variables and `arguments` refer to, what the globals refer to, everything not yet allocated).
+    Whatever `u` executes — in-place method calls, assignments, calls with everything the callees execute,
+    return-value capture — every other existing instance `w` keeps its context and `arguments`, and every
+    variable of `w` that refers to an object OUTSIDE the region (a value that was not passed across) shows
+    the same value afterwards. -/
+theorem locals_private_mut {A : Nat → Prop} (flows : List (String × HFlowDef)) (fuel : Nat) (s : HSt) (u : Nat)
+    (body : List HStmt) (hpre : Pre A s u) (w : Nat) (hw : w ≠ u) (hlt : w < s.st.next) :
+    findInst w (hexec flows fuel s u body).1.st.insts = findInst w s.st.insts ∧
+    ∀ y a, lookup y (s.st.ctxOf w) = some (addr a) → ¬ A a →
+      lookup y (derefCtx (hexec flows fuel s u body).1.heap ((hexec flows fuel s u body).1.st.ctxOf w))
+        = lookup y (derefCtx s.heap (s.st.ctxOf w)) := by
+  have r := hexec_frame flows fuel s u body hpre
+  have hfi := r.others w hw hlt
+  refine ⟨hfi, fun y a hy ha => ?_⟩
+  have hctx : (hexec flows fuel s u body).1.st.ctxOf w = s.st.ctxOf w := by simp only [St.ctxOf, hfi]
+  rw [hctx, lookup_derefCtx, lookup_derefCtx, hy]
+  simp only [Option.map_some, deref_addr, List.getD_eq_getElem?_getD, r.heap a ha]
+
+/-- non-vacuity of `Pre`: `main` (instance 0) holds the list in cell 1, a waiting instance 1 holds its own
+    list in cell 0; the region "everything but cell 0" is closed for instance 0 -/
+example : Pre (fun a => a ≠ 0)
+    { st := { insts := [(0, { flowId := "main", arguments := [], context := [(.name "v", addr 1)] }),
+                        (1, { flowId := "fa", arguments := [], context := [(.name "v", addr 0)] })], next := 2 },
+      heap := [.list [.int 1], .list [.int 2]] } 0 := by
+  refine ⟨?_, by decide, ?_, ⟨_, rfl, ?_, AllVals.nil _⟩, AllVals.nil _⟩
+  · intro x hx
+    simp [uids] at hx
+    rcases hx with h | h <;> simp [h]
+  · intro a ha; simp at ha; omega
+  · intro kv hkv
+    simp only [List.mem_singleton] at hkv
+    subst hkv
+    exact PA.addr (by decide)
+
+/-- the addresses a context holds -/
+def Holds (c : Ctx) (a : Nat) : Prop := ∃ kv ∈ c, kv.2 = addr a
+
+/-- no immediate dict among the values of a context (user values are boxed) -/
+def NoImmDict (c : Ctx) : Prop := ∀ kv ∈ c, isDict kv.2 = false
+
+theorem allVals_of_holds {A : Nat → Prop} {c : Ctx} (hd : NoImmDict c) (h : ∀ a, Holds c a → A a) : AllVals (PA A) c :=
+  fun kv hkv => ⟨fun a e => h a ⟨kv, hkv, e⟩, hd kv hkv⟩
+
+/-- **What an instance can reach is all it can touch** (corollary of the frame theorem): let instance `n`
+    run any `body` from a state `s`.  Every heap cell that `n` does not hold in its context or `arguments`,
+    that no global variable holds, and that already exists, has the same content afterwards — whatever `n`
+    and the flows it calls execute.  With `n` := a callee at its entry: a callee can change only the objects it
+    was passed, the global ones, and the ones it creates itself; everything else of the caller and of every
+    other instance is out of its reach. -/
+theorem reach_is_all_it_can_touch (flows : List (String × HFlowDef)) (fuel : Nat) (s : HSt) (n : Nat) (body : List HStmt)
+    (f : Inst) (hf : findInst n s.st.insts = some f) (hfresh : Fresh s.st) (hlt : n < s.st.next)
+    (hdc : NoImmDict f.context) (hda : NoImmDict f.arguments) (hdg : NoImmDict s.st.globals)
+    (a : Nat) (ha : a < s.heap.length)
+    (hc : ¬ Holds f.context a) (harg : ¬ Holds f.arguments a) (hg : ¬ Holds s.st.globals a) :
+    (hexec flows fuel s n body).1.heap[a]? = s.heap[a]? := by
+  let A : Nat → Prop := fun x => Holds f.context x ∨ Holds f.arguments x ∨ Holds s.st.globals x ∨ s.heap.length ≤ x
+  have hpre : Pre A s n :=
+    ⟨hfresh, hlt, fun x hx => Or.inr (Or.inr (Or.inr hx)),
+     ⟨f, hf, allVals_of_holds hdc (fun x hx => Or.inl hx), allVals_of_holds hda (fun x hx => Or.inr (Or.inl hx))⟩,
+     allVals_of_holds hdg (fun x hx => Or.inr (Or.inr (Or.inl hx)))⟩
+  refine (hexec_frame flows fuel s n body hpre).heap a ?_
+  rintro (h | h | h | h)
+  · exact hc h
+  · exact harg h
+  · exact hg h
+  · omega
+
+/-- non-vacuity: instance 1 holds cell 0 only; cell 1 (instance 0's list) is out of its reach -/
+example : ¬ Holds [(Key.name "v", addr 0)] 1 ∧ NoImmDict [(Key.name "v", addr 0)] := by
+  constructor
+  · rintro ⟨kv, hkv, e⟩
+    simp only [List.mem_singleton] at hkv
+    subst hkv
+    simp [addr] at e
+  · intro kv hkv
+    simp only [List.mem_singleton] at hkv
+    subst hkv
+    rfl
+
+/-! ### passed containers: exact characterisation of the sharing the code has (open finding) -/
+
+/-- a bare variable evaluates to the object it refers to (no copy, heap untouched) — unless it holds a
+    dict, which `eval_expression` shallow-copies (`AttributeDict(val)`) -/
+theorem bare_variable_is_the_object (h : Heap) (g c : Ctx) (x : String) (hnd : isDict (deref h (evalVar g c x)) = false) :
+    evalH h g c (.var x) = (h, evalVar g c x) := by
+  simp [evalH, hnd]
+
+/-- **A passed object is shared** (every signature, every well-formed call, every heap): positional
+    argument `i` reaches the callee's parameter `i` as the SAME address the caller supplied — the callee's
+    variable and whatever the caller's expression referred to are one object. -/
+theorem passed_container_is_shared (h : Heap) (params rets : List Param) (ua : Ctx) (k : Nat) (form : CallForm)
+    (flow : String) (n caller : Nat) (hwf : WellFormedCall params rets ua k) :
+    ∃ f0 f, createFlowInstance flow (allocDefaults h params).2 (allocDefaults (allocDefaults h params).1 rets).2
+          (startArgs ua form flow n caller) = .ok f0 ∧
+      startFlow false (startArgs ua form flow n caller) f0 = .ok f ∧
+      ∀ i (hi : i < params.length), i < k →
+        lookup (.name params[i].name) f.context = some ((lookup (.pos i) ua).getD .none) := by
+  have hwf' := wellFormedCall_allocDefaults params rets ua k h (allocDefaults h params).1 hwf
+  obtain ⟨f0, f, h1, h2, h3, _⟩ := bind_spec_core flow _ _ _ k (wellFormed_of_call _ _ ua k form flow n caller hwf')
+  refine ⟨f0, f, h1, h2, fun i hi hik => ?_⟩
+  obtain ⟨hi', hname, _, _⟩ := allocDefaults_spec params h i hi
+  have := h3 i hi'
+  rw [hname, specVal_startArgs] at this
+  rw [this]
+  simp [specVal, hik]
+
+/-- **An in-place mutation is seen through exactly the aliases**: after the object at address `a` was
+    mutated, a variable holding address `b` shows the new content iff `b = a`; every other object is
+    unchanged. -/
+theorem inplace_seen_exactly_by_aliases (h : Heap) (a b : Nat) (cell' : Val) (ha : a < h.length) :
+    deref (h.set a cell') (addr b) = if b = a then cell' else deref h (addr b) := by
+  simp only [deref_addr, List.getD_eq_getElem?_getD]
+  by_cases hb : b = a
+  · subst hb; simp [ha]
+  · simp [hb, List.getElem?_set_ne (Ne.symm hb)]
+
+/-- Kernel-checked counterexample for the code as it is (open finding
+    `inplace-mutation-of-passed-container`) in the heap interpreter: instance 1's parameter `$l` and
+    instance 0's variable `$l` are one object (that is what passing `$l` produces —
+    `passed_container_is_shared`); instance 1 executes `($l.append(9))`; instance 0's `$l` shows `[1, 9]`.
+    (finite fact, by evaluation) -/
+theorem inplace_alias_as_is_counterexample_exec :
+    let s : HSt := { st := { insts := [(0, { flowId := "main", arguments := [], context := [(.name "l", addr 0)] }),
+                                       (1, { flowId := "fa", arguments := [(.name "l", addr 0)], context := [(.name "l", addr 0)] })], next := 2 },
+                     heap := [.list [.int 1]] }
+    let s' := (hexec [] 3 s 1 [.mut "l" [] (.append (.lit (.int 9))) "_"]).1
+    lookup (.name "l") (derefCtx s.heap (s.st.ctxOf 0)) = some (.list [.int 1]) ∧
+    lookup (.name "l") (derefCtx s'.heap (s'.st.ctxOf 0)) = some (.list [.int 1, .int 9]) := by
+  constructor <;>
+    simp [hexec, St.ctxOf, findInst, derefCtx, deref, addr, lookup, evalVar, has, globalKey, mutAt, mutTop, Meth.evalF,
+      Bind.evalF, alloc, assignCtx, HSt.setCtx, St.setCtx, replaceInst, Bind.set]
+
+/-! ## Progress of the caller -/
+
+/-- callee side: `return e` ends the callee's run, and its `_return_value` is the value of `e` in the
+    callee's own context -/
+theorem return_ends_run (flows : List (String × FlowDef)) (fuel : Nat) (s : St) (n : Nat) (e : Expr) (rest : List Stmt)
+    (f : Inst) (hf : findInst n s.insts = some f) :
+    exec flows (fuel + 1) s n (.ret e :: rest) = (s.setCtx n s.globals (returnCtx (s.evalIn n e) (s.ctxOf n)), .finished) ∧
+    lookup returnKey ((s.setCtx n s.globals (returnCtx (s.evalIn n e) (s.ctxOf n))).ctxOf n) = some (s.evalIn n e) := by
+  refine ⟨by simp only [exec], ?_⟩
+  rw [ctxOf_of_find (find_setCtx_self s n _ _ f hf)]
+  simp [returnCtx, lookup_set_eq]
+
+/-- **Progress of the caller** (`$x = await flow(..)`), partial: explicit hypotheses for the two
+    internal-event matches.  If the callee's synchronous run ends `finished` with `_return_value = v`,
+    the caller's `match FlowStarted(<call arguments>)` (pattern evaluated after the callee's run, as the
+    code does) accepts the callee's FlowStarted event (`handshake`) and `match $ref.Finished()` accepts its
+    FlowFinished event (`finishedMatch`), then the `await` RETURNS: the caller goes on with the statements
+    after the call, in the state the callee left, with `$x` bound to `v` — reading `$x` there yields `v`.
+
+    Full statement (not proved): the two match hypotheses hold whenever the call is well-formed and the
+    argument values contain no regex / comparison objects and are not changed by the callee's run —
+    reflexivity of the C04 matcher on such values is missing; both hypotheses are evaluated by the model on
+    every generated program and compared with what the real interpreter did (the caller's later events). -/
+theorem await_progress_partial (flows : List (String × FlowDef)) (fuel : Nat) (s : St) (u : Nat) (x flow : String)
+    (pos : List Expr) (named : List (String × Expr)) (rest : List Stmt) (d : FlowDef) (f0 f1 f2 : Inst) (s2 : St) (v : Val)
+    (hd : findFlow flow flows = some d)
+    (hc : createFlowInstance flow d.params d.rets
+        (startArgs (userArgs s.globals (s.ctxOf u) pos named) .await flow s.next u) = .ok f0)
+    (hs : startFlow false (startArgs (userArgs s.globals (s.ctxOf u) pos named) .await flow s.next u) f0 = .ok f1)
+    (hrun : exec flows fuel { s with insts := s.insts ++ [(s.next, f1)], next := s.next + 1 } s.next d.body = (s2, .finished))
+    (hf2 : findInst s.next s2.insts = some f2)
+    (hhs : handshake (matchArgs (userArgs s2.globals (s2.ctxOf u) pos named) flow s.next) s.next f2 = true)
+    (hfm : finishedMatch s.next f2 = true)
+    (hret : lookup returnKey f2.context = some v) :
+    exec flows (fuel + 1) s u (.call .await (some x) flow pos named :: rest) =
+      exec flows fuel (s2.setCtx u (assignCtx x v s2.globals (s2.ctxOf u)).1 (assignCtx x v s2.globals (s2.ctxOf u)).2) u rest ∧
+    evalVar (assignCtx x v s2.globals (s2.ctxOf u)).1 (assignCtx x v s2.globals (s2.ctxOf u)).2 x = v := by
+  refine ⟨?_, evalVar_assignCtx x v _ _⟩
+  have hfin : lookup (.name "return_value") (finishedArgs (uidVal s.next) f2) = some v := by
+    simp [finishedArgs, hret, lookup_set_eq]
+  simp only [exec, hd, hc, hs, hrun, hf2, Option.getD_some, hhs, hfm, captureReturn, hfin]
+  simp
+
+/-- the callee instance of `flow fa: return 7` (uid 1, called from instance 0) after its run -/
+def pf : Inst := { flowId := "fa", arguments := [], context := [(returnKey, .int 7)], parent := some (uidVal 0) }
+
+theorem pf_handshake : handshake (matchArgs (userArgs [] [] [] []) "fa" 1) 1 pf = true := by
+  simp [handshake, evMatches, flowObj, matchArgs, userArgs, posArgs, update, Bind.set, toDict, keyStr, uidVal, pf,
+    Match.refEvent, Match.FlowObj.matchEvent, Match.eventScore, Match.eventCore, Generated.C04.evFlowStarted,
+    Generated.C04.internalEventsAll, Generated.C04.argumentFilter, Generated.C04.evStartFlow, Generated.C04.evFlowFinished,
+    Generated.C04.evFlowFailed, Match.dictUpdate, Match.lookup, Match.score, Match.scoreDict, Val.isInstanceOfTypeOf,
+    Val.pyType, PyType.isSub, Val.scalarEq]
+
+theorem pf_finished : finishedMatch 1 pf = true := by
+  simp [finishedMatch, evMatches, flowObj, toDict, keyStr, pf, lookup, returnKey,
+    Match.refEvent, Match.FlowObj.matchEvent, Match.eventScore, Match.eventCore, Generated.C04.evFlowStarted,
+    Generated.C04.internalEventsAll, Generated.C04.argumentFilter, Generated.C04.evStartFlow, Generated.C04.evFlowFinished,
+    Generated.C04.evFlowFailed, Match.dictUpdate, Match.lookup, Match.score, Match.scoreDict, Val.isInstanceOfTypeOf,
+    Val.pyType, PyType.isSub, Val.scalarEq, Match.setKey]
+
+def s0 : St := { insts := [(0, { flowId := "main", arguments := [], context := [] })], next := 1 }
+def fl : List (String × FlowDef) := [("fa", { params := [], rets := [], body := [.ret (.lit (.int 7))] })]
+
+def f0 : Inst := { flowId := "fa", arguments := [], context := [] }
+def f1 : Inst := { flowId := "fa", arguments := [], context := [], parent := some (uidVal 0) }
+def s2 : St := { insts := [(0, { flowId := "main", arguments := [], context := [] }), (1, pf)], next := 2 }
+
+/-- non-vacuity of `await_progress_partial`: `flow fa: return 7`, `main: $x = await fa` — all hypotheses hold
+    (the two matches evaluated through the C04 matcher model) -/
+example :
+    findFlow "fa" fl = some { params := [], rets := [], body := [.ret (.lit (.int 7))] } ∧
+    createFlowInstance "fa" [] [] (startArgs (userArgs s0.globals (s0.ctxOf 0) [] []) .await "fa" s0.next 0) = .ok f0 ∧
+    startFlow false (startArgs (userArgs s0.globals (s0.ctxOf 0) [] []) .await "fa" s0.next 0) f0 = .ok f1 ∧
+    exec fl 1 { s0 with insts := s0.insts ++ [(s0.next, f1)], next := s0.next + 1 } s0.next [.ret (.lit (.int 7))] = (s2, .finished) ∧
+    findInst s0.next s2.insts = some pf ∧
+    handshake (matchArgs (userArgs s2.globals (s2.ctxOf 0) [] []) "fa" s0.next) s0.next pf = true ∧
+    finishedMatch s0.next pf = true ∧ lookup returnKey pf.context = some (.int 7) := by
+  refine ⟨by simp [findFlow, fl], rfl, ?_, ?_, ?_, ?_, pf_finished, by simp [pf, lookup]⟩
+  · simp [startFlow, startArgs, matchArgs, userArgs, posArgs, update, Bind.set, lookup, has, startLoop, keys, s0, f0, f1, uidVal]
+  · simp [exec, s0, s2, f1, pf, St.setCtx, St.ctxOf, findInst, replaceInst, returnCtx, St.evalIn, eval, Bind.set, returnKey]
+  · simp [s0, s2, findInst]
+  · simpa [s0, s2, St.ctxOf, findInst] using pf_handshake
+/-- **Progress of the caller, full strength for flows without parameters** (`$x = await f`): if the callee's
+    synchronous run ends `finished` with `_return_value = v`, the `await` RETURNS: the caller continues with the
+    statements after the call, in the state the callee left, and `$x` reads `v`.  The two internal-event matches
+    are proved to succeed (`handshake_noargs`, `finishedMatch_noargs`: symbolic evaluation of the C04 matcher model
+    for every flow name, uid, callee context and returned value), using that `exec` never changes an instance's
+    `flowId` / `arguments` (`exec_sameShape`, induction over whole executions). -/
+theorem await_progress_noargs (flows : List (String × FlowDef)) (fuel : Nat) (s : St) (u : Nat) (x flow : String)
+    (rest : List Stmt) (body : List Stmt) (s2 : St) (v : Val) (hfresh : Fresh s)
+    (hd : findFlow flow flows = some { params := [], rets := [], body := body })
+    (hrun : exec flows fuel { s with insts := s.insts ++ [(s.next, { flowId := flow, arguments := [], context := [], parent := some (uidVal u) })], next := s.next + 1 }
+        s.next body = (s2, .finished))
+    (hret : lookup returnKey (s2.ctxOf s.next) = some v) :
+    exec flows (fuel + 1) s u (.call .await (some x) flow [] [] :: rest) =
+      exec flows fuel (s2.setCtx u (assignCtx x v s2.globals (s2.ctxOf u)).1 (assignCtx x v s2.globals (s2.ctxOf u)).2) u rest ∧
+    evalVar (assignCtx x v s2.globals (s2.ctxOf u)).1 (assignCtx x v s2.globals (s2.ctxOf u)).2 x = v :=
+  await_progress_noargs_core flows fuel s u x flow rest body s2 v hfresh hd hrun hret
+
+/-- non-vacuity: `flow fa: return 7`, `main: $x = await fa` from the initial state -/
+example : Fresh s0 ∧ findFlow "fa" fl = some { params := [], rets := [], body := [.ret (.lit (.int 7))] } ∧
+    exec fl 1 { s0 with insts := s0.insts ++ [(s0.next, { flowId := "fa", arguments := [], context := [], parent := some (uidVal 0) })], next := s0.next + 1 }
+      s0.next [.ret (.lit (.int 7))] = (s2, .finished) ∧
+    lookup returnKey (s2.ctxOf s0.next) = some (.int 7) := by
+  refine ⟨?_, by simp [findFlow, fl], ?_, ?_⟩
+  · intro x hx; simp [uids, s0] at hx; simp [hx, s0]
+  · simp [exec, s0, s2, pf, St.setCtx, St.ctxOf, findInst, replaceInst, returnCtx, St.evalIn, eval, Bind.set, returnKey]
+  · simp [s0, s2, pf, St.ctxOf, findInst, lookup]
+
+/-! ## Surplus positional arguments (observed behaviour, outside the statement): exact characterisation -/
+
+/-- **Surplus positionals, exactly** (every signature with distinct names, every number `k` of contiguous
+    positionals): the code as it is rejects the call iff `k > 2·n` — `_start_flow` enumerates
+    `FlowState.arguments`, which holds the `n` parameter keys AND the `min k n` keys `$i` the second loop of
+    `create_flow_instance` added, so its "one more than the last index" check only fires beyond `2n`.  For
+    `n < k ≤ 2n` the call is accepted (the caller then waits forever: FlowStarted lacks `$n…`). -/
+theorem surplus_positionals_exact (fid : String) (params rets : List Param) (ev : Ctx) (k : Nat)
+    (h : PositionalCall params ev k) :
+    ∃ f0, createFlowInstance fid params rets ev = .ok f0 ∧
+      (2 * params.length < k → startFlow false ev f0 = .error .tooMany) ∧
+      (k ≤ 2 * params.length → ∃ f, startFlow false ev f0 = .ok f) :=
+  surplus_core fid params rets ev k h
+
+/-- non-vacuity: `flow f $a` called with two positionals -/
+example : PositionalCall [⟨"a", none⟩]
+    [(.pos 0, .int 0), (.pos 1, .int 1), (.name "source_flow_instance_uid", .str "m"), (.name "source_head_uid", .str "h")] 2 := by
+  refine ⟨by decide, by simp [lookup], by simp [lookup], by simp [lookup], ?_, ?_⟩
+  · intro i hi
+    have : i = 0 ∨ i = 1 := by omega
+    rcases this with e | e <;> subst e <;> simp [lookup]
+  · intro i hi
+    have h0 : (Key.pos 0 = Key.pos i) = False := by
+      simp only [Key.pos.injEq, eq_iff_iff, iff_false]; omega
+    have h1 : (Key.pos 1 = Key.pos i) = False := by
+      simp only [Key.pos.injEq, eq_iff_iff, iff_false]; omega
+    simp [lookup, h0, h1]
+
+/-- … and where the accepted surplus value goes: `flow f $a` called as `f(0, 1)` — the second positional
+    lands in the callee's context under the key `$0` (the loop of `_start_flow` walks on over the `$i` keys of
+    `arguments`). (finite fact, by evaluation) -/
+theorem surplus_lands_under_positional_key_witness :
+    ∃ f0 f, createFlowInstance "f" [⟨"a", none⟩] []
+        [(.pos 0, .int 0), (.pos 1, .int 1), (.name "source_flow_instance_uid", .str "m"), (.name "source_head_uid", .str "h")] = .ok f0 ∧
+      startFlow false
+        [(.pos 0, .int 0), (.pos 1, .int 1), (.name "source_flow_instance_uid", .str "m"), (.name "source_head_uid", .str "h")] f0 = .ok f ∧
+      lookup (.name "a") f.context = some (.int 0) ∧ lookup (.pos 0) f.context = some (.int 1) := by
+  refine ⟨_, _, rfl, rfl, ?_, ?_⟩ <;>
+    simp [Bind.set, lookup, bindNamed, bindPos, bindRet, startLoop, keys, argKey, reservedNames, paramOfKey, Param.dfltVal]
+
+/-! ## Restart of an activated flow (open finding, fix proposed) -/
+
+/-- Kernel-checked counterexample for the code as it is (open finding
+    `default-not-reevaluated-on-activated-restart`): `flow fa $b=[]`, `activate fa` (argument omitted).  The
+    first instance is bound to a fresh `[]` (cell 0); it executes `($b.append(1))`; when it finishes the
+    interpreter restarts the flow with `FlowState.start_event` (`restartArgs`), which carries `b` = the
+    finished instance's object: the restarted instance's `$b` is cell 0 = `[1]`, although a fresh default
+    was allocated for it (cell 1 = `[]`, unused) and `defaults_fresh_call` would give `[]` for a call that
+    omits `b`. (finite fact, by evaluation) -/
+theorem restart_reuses_default_object_as_is_counterexample :
+    let params : List Param := [⟨"b", some (.lit (.list []))⟩]
+    let first : Inst := { flowId := "fa", arguments := [(.name "b", addr 0)], context := [(.name "b", addr 0)] }
+    let heap : Heap := [.list [.int 1]]                      -- after `($b.append(1))`
+    let ps := allocDefaults heap params
+    ∃ f0 f, createFlowInstance "fa" ps.2 [] (restartArgs first (.str "#2") (.str "#0")) = .ok f0 ∧
+      startFlow false (restartArgs first (.str "#2") (.str "#0")) f0 = .ok f ∧
+      lookup (.name "b") (derefCtx ps.1 f.context) = some (.list [.int 1]) ∧
+      (params[0]'(by decide)).dfltVal = .list [] := by
+  refine ⟨_, _, rfl, rfl, ?_, ?_⟩ <;>
+    simp [restartArgs, update, Bind.set, lookup, bindNamed, bindPos, bindRet, startLoop, keys, allocDefaults,
+      derefCtx, deref, addr, argKey, reservedNames, Param.dfltVal, eval]
+
+/-- the same scenario with the proposed repair (`restartArgsRepaired`, `default_argument_keys = ["b"]`): the
+    restarted instance is bound to the fresh default. (finite fact, by evaluation) -/
+theorem restart_repaired_witness :
+    let params : List Param := [⟨"b", some (.lit (.list []))⟩]
+    let first : Inst := { flowId := "fa", arguments := [(.name "b", addr 0)], context := [(.name "b", addr 0)] }
+    let heap : Heap := [.list [.int 1]]
+    let ps := allocDefaults heap params
+    ∃ f0 f, createFlowInstance "fa" ps.2 [] (restartArgsRepaired first [.name "b"] (.str "#2") (.str "#0")) = .ok f0 ∧
+      startFlow false (restartArgsRepaired first [.name "b"] (.str "#2") (.str "#0")) f0 = .ok f ∧
+      lookup (.name "b") (derefCtx ps.1 f.context) = some (.list []) := by
+  refine ⟨_, _, rfl, rfl, ?_⟩
+  simp [restartArgsRepaired, update, Bind.set, lookup, bindNamed, bindPos, bindRet, startLoop, keys, allocDefaults,
+    derefCtx, deref, addr, argKey, reservedNames, Param.dfltVal, eval]
 
 end NemoVerif.C08
